@@ -124,6 +124,305 @@ def _flush_sites(fn):
     return out
 
 
+class NotInt(Exception):
+    pass
+
+
+def ieval(n, env, funcs, depth=0):
+    """evaluate a pure integer expression (Rust semantics for the operators used here: floor division on non-negative operands,
+    casts between integer types are value-preserving on the small domain) - paths, int literals, + - * /, .min/.max, calls of `funcs`"""
+    n = strip(n)
+    if depth > 40:
+        raise NotInt("too deep")
+    k = n.k
+    if k == "lit" and n["t"] == "int":
+        return int(re.sub(r"[a-z_].*$", "", str(n["v"]))) if not str(n["v"]).lstrip("-").isdigit() else int(n["v"])
+    if k == "cast":
+        t = n.get("ty") if isinstance(n.get("ty"), str) else ""
+        if "f32" in t or "f64" in t:
+            raise NotInt("float cast: " + up(n))
+        return ieval(n["e"], env, funcs, depth + 1)
+    if k == "paren":
+        return ieval(n["e"], env, funcs, depth + 1)
+    if k == "path":
+        if n["path"] in env:
+            return env[n["path"]]
+        raise NotInt("free variable " + n["path"])
+    if k == "unary" and n["op"] == "-":
+        return -ieval(n["e"], env, funcs, depth + 1)
+    if k == "binary" and n["op"] in ("+", "-", "*", "/"):
+        l, r = ieval(n["l"], env, funcs, depth + 1), ieval(n["r"], env, funcs, depth + 1)
+        if n["op"] == "+":
+            return l + r
+        if n["op"] == "-":
+            return l - r
+        if n["op"] == "*":
+            return l * r
+        if r == 0:
+            raise NotInt("division by zero in " + up(n))
+        q = abs(l) // abs(r)
+        return q if (l >= 0) == (r >= 0) else -q   # Rust truncates toward zero
+    if k == "mcall" and n["method"] in ("min", "max") and len(n["args"]) == 1:
+        l, r = ieval(n["recv"], env, funcs, depth + 1), ieval(n["args"][0], env, funcs, depth + 1)
+        return min(l, r) if n["method"] == "min" else max(l, r)
+    if k == "call" and up(n["func"]) in funcs:
+        f = funcs[up(n["func"])]
+        args = [ieval(a, env, funcs, depth + 1) for a in n["args"]]
+        return f(*args)
+    raise NotInt("unsupported: " + up(n)[:60])
+
+
+def _fn_as_int_function(ctx, name, funcs):
+    """a one-expression integer helper as a Python callable over its parameters"""
+    fn = ctx.ast.fn(PY, name)
+    st = fn.body["stmts"]
+    if len(st) != 1 or st[0].k != "expr_stmt":
+        raise NotInt("%s is not a single expression" % name)
+    names = [nm for nm, _ in fn.params]
+    e = st[0]["e"]
+
+    def call(*args):
+        return ieval(e, dict(zip(names, args)), funcs)
+    return fn, call
+
+
+def ob_bin_arithmetic(ctx, res):
+    """C20-B1: bin_bound / bin_of decided by exhaustive evaluation of their source expressions on a small domain"""
+    try:
+        fb, bound = _fn_as_int_function(ctx, "bin_bound", {})
+        fo, binof = _fn_as_int_function(ctx, "bin_of", {})
+    except Exception as e:
+        res.fail("binArith/helpers", PY, "the integer bin helpers bin_bound(len, bins, bin) / bin_of(len, bins, pos) were not found or are not pure integer expressions (%s): "
+                                         "bin indices and bin spans computed in floating point disagree for non-integral widths and round wrongly (ceil(15/(15/13)) = 14)" % e)
+        return
+    if [nm for nm, _ in fb.params] != ["len", "bins", "bin"] or [nm for nm, _ in fo.params] != ["len", "bins", "pos"]:
+        res.fail("binArith/signature", fb, "expected bin_bound(len, bins, bin) and bin_of(len, bins, pos)")
+        return
+    n = 0
+    try:
+        for ln in range(1, 15):
+            for bins in range(1, ln + 4):
+                bs = [bound(ln, bins, k) for k in range(bins + 1)]
+                if bs[0] != 0 or bs[-1] != ln:
+                    res.fail("binArith/cover", fb, "bins must tile the range exactly: len=%d bins=%d gives bounds %s" % (ln, bins, bs))
+                    return
+                if any(bs[i] > bs[i + 1] for i in range(bins)):
+                    res.fail("binArith/monotone", fb, "bin bounds must not decrease: len=%d bins=%d gives %s" % (ln, bins, bs))
+                    return
+                if bins <= ln and any(bs[i] == bs[i + 1] for i in range(bins)):
+                    res.fail("binArith/nonempty", fb, "with bins <= len every bin must hold at least one base: len=%d bins=%d gives %s" % (ln, bins, bs))
+                    return
+                if ln % bins == 0 and bs != [k * (ln // bins) for k in range(bins + 1)]:
+                    res.fail("binArith/integral", fb, "for an integral width bin k must be [k*w, (k+1)*w): len=%d bins=%d gives %s" % (ln, bins, bs))
+                    return
+                for pos in range(ln):
+                    k = binof(ln, bins, pos)
+                    n += 1
+                    if not (0 <= k < bins and bs[k] <= pos < bs[k + 1]):
+                        res.fail("binArith/consistent", fo,
+                                 "bin_of and bin_bound disagree: len=%d bins=%d: base %d is assigned to bin %d whose span is [%s, %s) - a covered base is then "
+                                 "counted for the wrong bin (mean/min/max outside the data range)" % (ln, bins, pos, k, bs[k] if 0 <= k <= bins else "?", bs[k + 1] if 0 <= k < bins else "?"))
+                        return
+    except NotInt as e:
+        res.fail("binArith/eval", fb, "helper not evaluable as integer arithmetic: %s" % e)
+        return
+    res.count("bin_cases", n)
+    res.ok(fb, "bin_bound/bin_of: bins tile [0,len) exactly, non-empty for bins <= len, integral widths give k*w, and every base lies in the span of the bin it is assigned to (%d cases, len <= 14)" % n)
+
+
+BIN_ROUTINES = ["to_array_bins", "to_array_zoom", "to_entry_array_bins", "to_entry_array_zoom"]
+
+
+def _clamped(fn, let, which):
+    """`(item.start as i32).max(start) - start` / `(item.end as i32).min(end) - start` (either argument order)"""
+    t = _sq(up(strip(let["init"])))
+    item = r"\w+\.%s(?:asi32)?" % ("start" if which == "lo" else "end")
+    lim = "start" if which == "lo" else "end"
+    m = "max" if which == "lo" else "min"
+    return re.fullmatch(r"(?:%s\.%s%s|%s\.%s%s|(?:std::cmp::)?%s%s,%s|(?:std::cmp::)?%s%s,%s)-start" % (item, m, lim, lim, m, item, m, item, lim, m, lim, item), t) is not None
+
+
+def ob_bin_routines(ctx, res):
+    """C20-B2: the four bin routines clamp the item to the range, skip items without a base in it, index bins with bin_of and span them with bin_bound"""
+    for name in BIN_ROUTINES:
+        fn = ctx.ast.fn(PY, name)
+        loops = [x for x in walk_no_nested_fn(fn.body) if x.k == "for" and up(strip(x["iter"])) == "iter"]
+        if len(loops) != 1:
+            res.fail("binRoutine/%s/loop" % name, fn, "expected one loop over the items")
+            continue
+        body = loops[0]["body"]
+        lets = {}
+        for st in body["stmts"]:
+            if st.k == "let" and st["pat"].k == "p_ident" and st.get("init") is not None:
+                lets.setdefault(st["pat"]["name"], st)
+        miss = [k for k in ("interval_start", "interval_end", "bin_start", "bin_end") if k not in lets]
+        if miss:
+            res.fail("binRoutine/%s/steps" % name, fn, "bookkeeping step(s) %s not found at the top of the item loop" % miss)
+            continue
+        if not _clamped(fn, lets["interval_start"], "lo") or not _clamped(fn, lets["interval_end"], "hi"):
+            res.fail("binRoutine/%s/clamp" % name, lets["interval_start"],
+                     "the item must be clamped to the range before it is made relative: max(item.start, start) - start and min(item.end, end) - start "
+                     "(bigBed and zoom queries return unclipped items); got `%s` / `%s`" % (up(lets["interval_start"]["init"]), up(lets["interval_end"]["init"])))
+            continue
+        # skip guard between the clamp and the bin indices
+        guards = [st for st in body["stmts"] if st.k == "expr_stmt" and strip(st["e"]).k == "if" and lets["interval_end"].order < st.order < lets["bin_start"].order
+                  and _sq(up(strip(st["e"])["cond"])) in ("interval_end<=interval_start", "interval_start>=interval_end", "!interval_start<interval_end")
+                  and re.fullmatch(r"\{continue;?\}", up(strip(st["e"])["then"]))]
+        if len(guards) != 1:
+            res.fail("binRoutine/%s/touching" % name, lets["bin_start"],
+                     "an item with no base inside the range (range queries also return items that only touch it, e.g. starting exactly at the range end) must be skipped before "
+                     "its bins are computed: otherwise its first bin index is `bins`, a bin that does not exist is queued and v[bins] is written (panic)")
+            continue
+        lenlet = [x for x in walk_no_nested_fn(fn.body) if x.k == "let" and x["pat"].k == "p_ident" and x["pat"]["name"] == "len" and x.order < loops[0].order]
+        if len(lenlet) != 1 or _sq(up(lenlet[0]["init"])) != "end-start":
+            res.fail("binRoutine/%s/len" % name, fn, "`len` must be end - start")
+            continue
+        if _sq(up(lets["bin_start"]["init"])) != "bin_oflen,bins,interval_start" or _sq(up(lets["bin_end"]["init"])) != "bin_oflen,bins,interval_end-1":
+            res.fail("binRoutine/%s/index" % name, lets["bin_start"],
+                     "first and last bin of an item must be bin_of(len, bins, interval_start) and bin_of(len, bins, interval_end - 1); got `%s` / `%s`"
+                     % (up(lets["bin_start"]["init"]), up(lets["bin_end"]["init"])))
+            continue
+        spans = [x for x in walk_no_nested_fn(body) if x.k == "call" and up(x["func"]) == "bin_bound"]
+        sp = sorted(_sq(up(x)) for x in spans)
+        if sp != ["bin_boundlen,bins,bin", "bin_boundlen,bins,bin+1"]:
+            res.fail("binRoutine/%s/span" % name, fn, "a queued bin's span must be [bin_bound(len, bins, bin), bin_bound(len, bins, bin + 1)); got %s" % [up(x) for x in spans])
+            continue
+        fl = [x for x in walk_no_nested_fn(body) if x.k == "binary" and x["op"] == "/" and "bin_size" in up(x)]
+        if fl:
+            res.fail("binRoutine/%s/float" % name, fl[0], "bin indices or spans are still computed in floating point")
+            continue
+        res.ok(fn, "%s: item clamped to the range, skipped when no base is inside, bins bin_of(start)..=bin_of(end-1), spans from bin_bound" % name)
+
+
+def ob_zoom_entry_stat(ctx, res):
+    """C20-Z1: in to_entry_array_zoom the NaN -> 0 seed is applied to the mean only (min/max ignore NaN)"""
+    fn = ctx.ast.fn(PY, "to_entry_array_zoom")
+    ms = [m for m in walk_no_nested_fn(fn.body) if m.k == "match" and up(strip(m["scrut"])) == "summary" and "min_val" in up(m) and "v[bin]" not in up(m)]
+    if len(ms) != 1:
+        res.fail("zoomEntry/shape", fn, "per-base statistic update not found")
+        return
+    m = ms[0]
+    arms = {up(a["pat"]).split("::")[-1]: a for a in m["arms"]}
+    # nothing outside the match may rewrite the slot before it
+    lp = m.parent
+    while lp is not None and lp.k != "for":
+        lp = lp.parent
+    pre = [x for x in walk_no_nested_fn(lp["body"]) if x.k == "assign" and x.order < m.order and up(strip(x["l"])) == "*i"] if lp is not None else []
+    if pre:
+        res.fail("zoomEntry/seed", pre[0], "`%s` runs before every statistic: an uncovered (NaN) base becomes 0.0 and the minimum of non-negative data is then always 0" % up(pre[0]))
+        return
+    tmin, tmax, tmean = _sq(up(arms["Min"]["body"])), _sq(up(arms["Max"]["body"])), _sq(up(arms["Mean"]["body"]))
+    if tmin != "*i=i.mininterval.summary.min_val" or tmax != "*i=i.maxinterval.summary.max_val":
+        res.fail("zoomEntry/minmax", m, "min/max per base must be i.min(record.min_val) / i.max(record.max_val) on the NaN-seeded slot (f64::min/max ignore NaN)")
+        return
+    if tmean not in ("*i=i.max0.0+mean", "*i=*i.max0.0+mean"):
+        res.fail("zoomEntry/mean", m, "mean per base must add the record mean to the slot with NaN read as 0")
+        return
+    res.ok(m, "to_entry_array_zoom: NaN->0 only for the mean; min/max fold the record's min_val/max_val into the NaN-seeded slot")
+
+
+def ob_oob_fill(ctx, res):
+    """C20-O1: fill_out_of_bounds decided by evaluating its index expressions for all small (start, end, length, bins)"""
+    fn = ctx.ast.fn(PY, "fill_out_of_bounds", required=False)
+    if fn is None:
+        res.fail("oobFill/missing", PY, "fill_out_of_bounds(start, end, length, oob, array) not found")
+        return
+    try:
+        _, bound = _fn_as_int_function(ctx, "bin_bound", {})
+        _, binof = _fn_as_int_function(ctx, "bin_of", {})
+    except Exception as e:
+        res.fail("oobFill/helpers", fn, "integer bin helpers not available: %s" % e)
+        return
+    funcs = {"bin_of": binof, "bin_bound": bound}
+    names = [nm for nm, _ in fn.params]
+    if names != ["start", "end", "length", "oob", "array"]:
+        res.fail("oobFill/signature", fn, "unexpected signature %s" % names)
+        return
+    stmts = fn.body["stmts"]
+    # recognised shape: lets (pure ints), an early return on an empty range/array, then `if cond { [lets] for i in A..B / A..=B { array[i] = oob; } }` blocks
+    pre_lets, ifs, early = [], [], None
+    for st in stmts:
+        if st.k == "let":
+            pre_lets.append(st)
+        elif st.k == "expr_stmt" and strip(st["e"]).k == "if":
+            i = strip(st["e"])
+            if re.fullmatch(r"\{return;?\}", up(i["then"])):
+                early = i
+            else:
+                ifs.append(i)
+        else:
+            res.fail("oobFill/shape", st, "unrecognised statement `%s`" % up(st)[:60])
+            return
+    if len(ifs) != 2 or early is None:
+        res.fail("oobFill/shape", fn, "expected an early return for an empty range and two guarded fills (before 0, past the end)")
+        return
+
+    def cond_eval(c, env):
+        c = strip(c)
+        if c.k == "binary" and c["op"] == "||":
+            return cond_eval(c["l"], env) or cond_eval(c["r"], env)
+        if c.k == "binary" and c["op"] == "&&":
+            return cond_eval(c["l"], env) and cond_eval(c["r"], env)
+        if c.k == "binary" and c["op"] in ("<", "<=", ">", ">=", "==", "!="):
+            l, r = ieval(c["l"], env, funcs), ieval(c["r"], env, funcs)
+            return {"<": l < r, "<=": l <= r, ">": l > r, ">=": l >= r, "==": l == r, "!=": l != r}[c["op"]]
+        raise NotInt("condition " + up(c))
+
+    n = 0
+    try:
+        for length in range(1, 7):
+            for start in range(-4, length + 4):
+                for end in range(start + 1, length + 5):
+                    ln = end - start
+                    for bins in sorted(set(list(range(1, ln + 1)))):
+                        env = {"start": start, "end": end, "length": length}
+                        for l in pre_lets:
+                            nm = l["pat"]["name"]
+                            if up(strip(l["init"])) == "array.len()":
+                                env[nm] = bins
+                            else:
+                                env[nm] = ieval(l["init"], env, funcs)
+                        if cond_eval(early["cond"], env):
+                            res.fail("oobFill/early", early, "returns without filling although the range is not empty (start=%d end=%d length=%d bins=%d)" % (start, end, length, bins))
+                            return
+                        marked = set()
+                        for i in ifs:
+                            if not cond_eval(i["cond"], env):
+                                continue
+                            e2 = dict(env)
+                            for st in i["then"]["stmts"]:
+                                if st.k == "let":
+                                    e2[st["pat"]["name"]] = ieval(st["init"], e2, funcs)
+                                elif st.k == "expr_stmt" and strip(st["e"]).k == "for":
+                                    f = strip(st["e"])
+                                    rg = strip(f["iter"])
+                                    if rg.k != "range" or not re.fullmatch(r"\{array\[%s\] = oob;?\}" % re.escape(up(f["pat"])), up(f["body"])):
+                                        raise NotInt("fill loop " + up(f)[:60])
+                                    lo = ieval(rg["from"], e2, funcs) if rg.get("from") is not None else 0
+                                    hi = ieval(rg["to"], e2, funcs)
+                                    if rg.get("inclusive") or "..=" in up(rg):
+                                        hi += 1
+                                    for k in range(lo, hi):
+                                        if not 0 <= k < bins:
+                                            res.fail("oobFill/index", f, "writes array[%d] with %d bins (start=%d end=%d length=%d): out of bounds" % (k, bins, start, end, length))
+                                            return
+                                        marked.add(k)
+                                else:
+                                    raise NotInt("statement " + up(st)[:60])
+                        bs = [bound(ln, bins, k) for k in range(bins + 1)]
+                        want = set(k for k in range(bins) if any(start + p < 0 or start + p >= length for p in range(bs[k], bs[k + 1])))
+                        n += 1
+                        if marked != want:
+                            res.fail("oobFill/bins", fn, "start=%d end=%d length=%d bins=%d: bins filled with oob %s, bins holding a base outside the chromosome %s"
+                                     % (start, end, length, bins, sorted(marked), sorted(want)))
+                            return
+    except NotInt as e:
+        res.fail("oobFill/eval", fn, "not evaluable as integer arithmetic: %s" % e)
+        return
+    res.count("oob_cases", n)
+    res.ok(fn, "fill_out_of_bounds: for every small (start, end, length, bins <= len) exactly the bins holding a base before 0 or at/after `length` are set to oob, all indices in range (%d cases)" % n)
+
+
 def ob_bin_siblings(ctx, res):
     """C20-S1"""
     for a, b in (("to_array_bins", "to_array_zoom"), ("to_entry_array_bins", "to_entry_array_zoom")):
@@ -144,7 +443,7 @@ def ob_bin_siblings(ctx, res):
         def book(fn):
             out = {}
             for x in walk_no_nested_fn(fn.body):
-                if x.k == "let" and x["pat"].k == "p_ident" and x["pat"]["name"] in ("bin_size", "interval_start", "interval_end", "bin_start", "bin_end") and x.get("init") is not None:
+                if x.k == "let" and x["pat"].k == "p_ident" and x["pat"]["name"] in ("len", "interval_start", "interval_end", "bin_start", "bin_end") and x.get("init") is not None:
                     out.setdefault(x["pat"]["name"], []).append(up(x["init"]))
                 if x.k == "while" and "front_mut()" in up(x["cond"]):
                     out.setdefault("pop-loop-head", []).append(up(x["cond"]) + " " + up(x["body"])[:60])
@@ -154,7 +453,7 @@ def ob_bin_siblings(ctx, res):
                     out.setdefault("fill", []).append(up(x))
             return out
         ba, bb = book(fa), book(fb)
-        for k in ("bin_size", "interval_start", "interval_end", "bin_start", "bin_end", "pop-loop-head", "stop", "fill"):
+        for k in ("len", "interval_start", "interval_end", "bin_start", "bin_end", "pop-loop-head", "stop", "fill"):
             if not ba.get(k) or not bb.get(k):
                 res.fail("binSiblings/%s-%s/%s-missing" % (a, b, k), fa if not ba.get(k) else fb, "bin bookkeeping step `%s` not found" % k)
             elif ba[k] != bb[k]:
@@ -169,43 +468,38 @@ def ob_drivers(ctx, res):
     for name, read in (("intervals_to_array", "bigwig_start_end_length"), ("entries_to_array", "bigbed_start_end_length")):
         fn = ctx.ast.fn(PY, name)
         t = up(fn.body)
-        if "let (intervals_start,intervals_end) = (start.max(0) as u32,end.min(length) as u32);" not in t:
-            res.fail("drivers/%s/clamp" % name, fn, "the library must be queried with (max(start, 0), min(end, length))")
+        # the library is queried with a range inside [0, length] on both ends (u32 casts of negative numbers wrap)
+        cl = [x for x in walk_no_nested_fn(fn.body) if x.k == "let" and x["pat"].k == "p_tuple" and [up(e) for e in x["pat"]["elems"]] == ["intervals_start", "intervals_end"]]
+        okc = False
+        if len(cl) == 1 and strip(cl[0]["init"]).k == "tuple":
+            lo, hi = [_sq(up(e)) for e in strip(cl[0]["init"])["elems"]]
+            okc = lo in ("start.max0asu32", "start.max0.minlengthasu32", "start.minlength.max0asu32") and hi in ("end.minlength.max0asu32", "end.max0.minlengthasu32")
+            if lo == "start.max0asu32" and hi == "end.minlengthasu32":
+                res.fail("drivers/%s/clamp-neg-end" % name, cl[0],
+                         "the queried end is min(end, length) cast to u32 without a lower bound: for a range entirely before the chromosome (end < 0) it wraps to ~4.29e9")
+                continue
+        if not okc:
+            res.fail("drivers/%s/clamp" % name, fn, "the library must be queried with (max(start, 0), max(min(end, length), 0))")
             continue
         qs = [c for c in walk_no_nested_fn(fn.body) if c.k == "mcall" and c["method"] in ("get_interval", "get_zoom_interval")]
         bad = [c for c in qs if [up(strip(a)) for a in c["args"][1:3]] != ["intervals_start", "intervals_end"]]
         if len(qs) != 3 or bad:
             res.fail("drivers/%s/query" % name, fn, "all three queries (zoom, binned, per-base) must use the clamped range")
             continue
-        # oob fill after the data fill
-        oob = [x for x in walk_no_nested_fn(fn.body) if x.k == "assign" and up(strip(x["r"])) == "oob"]
-        if len(oob) != 2:
-            res.fail("drivers/%s/oob-sites" % name, fn, "expected two out-of-bounds fills (below 0, beyond the chromosome end)")
+        # oob fill after the data fill, over the same (start, end), the chromosome length and the caller's oob value
+        oc = [c for c in walk_no_nested_fn(fn.body) if c.k == "call" and up(c["func"]) == "fill_out_of_bounds"]
+        if len(oc) != 1 or [up(strip(a)) for a in oc[0]["args"][:4]] != ["start", "end", "length", "oob"]:
+            res.fail("drivers/%s/oob-call" % name, fn, "out-of-bounds bins must be filled by fill_out_of_bounds(start, end, length, oob, array)")
             continue
         data_calls = [c for c in walk_no_nested_fn(fn.body) if c.k == "call" and up(c["func"]) in ROUTINES]
-        if len(data_calls) != 3 or any(c.order > oob[0].order for c in data_calls):
+        if len(data_calls) != 3 or any(c.order > oc[0].order for c in data_calls):
             res.fail("drivers/%s/oob-order" % name, fn, "out-of-bounds fill must be written after the data fill")
             continue
-        lo = oob[0].parent
-        while lo is not None and lo.k != "if":
-            lo = lo.parent
-        hi = oob[1].parent
-        while hi is not None and hi.k != "if":
-            hi = hi.parent
-        tl, th = _sq(up(lo)), _sq(up(hi))
-        if up(strip(lo["cond"])) != "start < 0" or _sq("let bin_start = 0;") not in tl or _sq("let interval_end = 0 - start;") not in tl or \
-                _sq("let bin_end = (interval_end as f64 / bin_size).ceil() as usize;") not in tl:
-            res.fail("drivers/%s/oob-low" % name, lo, "bins [0, ceil(-start / bin_size)) must be out-of-bounds when start < 0")
+        bad = [c for c in data_calls if [up(strip(a)) for a in c["args"][:2]] != ["start", "end"]]
+        if bad:
+            res.fail("drivers/%s/range" % name, bad[0], "the array routines must be given the requested (unclamped) range: the array covers [start, end)")
             continue
-        if up(strip(hi["cond"])) != "end > length" or _sq("let interval_start = length as i32 - start;") not in th or \
-                _sq("let bin_start = (interval_start as f64 / bin_size) as usize;") not in th or _sq("let bin_end = (interval_end as f64 / bin_size).ceil() as usize;") not in th:
-            res.fail("drivers/%s/oob-high" % name, hi, "bins [floor((length - start) / bin_size), bins) must be out-of-bounds when end > length")
-            continue
-        # bin_size: (end - start)/bins for binned, 1.0 per base
-        if _sq("(end - start) as f64 / bins as f64") not in _sq(t) or not re.search(r"\.convert_err\(\)\?; 1\.0\}", t):
-            res.fail("drivers/%s/bin-size" % name, fn, "oob bin width must be (end-start)/bins for binned output and 1.0 per base")
-            continue
-        res.ok(fn, "%s: query clamped to [max(start,0), min(end,length)); oob bins [0, ceil(-start/w)) and [floor((length-start)/w), n) written after the data" % name)
+        res.ok(fn, "%s: query clamped to [max(start,0), max(min(end,length),0)); the three routines get (start, end); fill_out_of_bounds(start, end, length, oob) afterwards" % name)
         texts[name] = re.sub(r"\b(bigwig|bigbed)_start_end_length\b", "START_END", re.sub(r"\bto_entry_array", "to_array", t))
     if len(texts) == 2:
         a, b = texts["intervals_to_array"], texts["entries_to_array"]
@@ -226,8 +520,25 @@ def ob_per_base(ctx, res):
         if "v.fill(f64::NAN);" not in t:
             res.fail("perBase/%s/seed" % name, fn, "the per-base array must be NaN-seeded (so that data and `missing` cannot be confused)")
             continue
-        if "let interval_start = (interval.start as i32 - start) as usize; let interval_end = (interval.end as i32 - start) as usize;" not in t.replace("((interval.start as i32) - start)", "(interval.start as i32 - start)").replace("((interval.end as i32) - start)", "(interval.end as i32 - start)"):
-            res.fail("perBase/%s/index" % name, fn, "bases interval.start-start .. interval.end-start must be filled")
+        lets = {x["pat"]["name"]: x for x in walk_no_nested_fn(fn.body) if x.k == "let" and x["pat"].k == "p_ident" and x["pat"]["name"] in ("interval_start", "interval_end")}
+        if set(lets) != {"interval_start", "interval_end"}:
+            res.fail("perBase/%s/index" % name, fn, "index bounds not found")
+            continue
+        ts, te = _sq(up(lets["interval_start"]["init"])), _sq(up(lets["interval_end"]["init"]))
+        raw = ts == "interval.startasi32-startasusize" and te == "interval.endasi32-startasusize"
+        clamped = ts in ("interval.startasi32.maxstart-startasusize",) and te in ("interval.endasi32.minend-startasusize",)
+        if name == "to_entry_array" and not clamped:
+            res.fail("perBase/%s/clamp" % name, lets["interval_start"],
+                     "bigBed range queries return whole entries (also ones that only touch the range): the slots must be max(entry.start, start) - start .. min(entry.end, end) - start; "
+                     "unclamped, an entry reaching past the range end indexes out of bounds and one starting before the range start wraps to an empty loop (the entry is dropped); "
+                     "got `%s` / `%s`" % (up(lets["interval_start"]["init"]), up(lets["interval_end"]["init"])))
+            continue
+        if name == "to_array" and not (raw or clamped):
+            res.fail("perBase/%s/index" % name, fn, "bases value.start-start .. value.end-start must be filled (bigWig queries clip values to the range: C03)")
+            continue
+        lp = [x for x in walk_no_nested_fn(fn.body) if x.k == "for" and _sq(up(strip(x["iter"]))) == "interval_start..interval_end"]
+        if len(lp) != 1:
+            res.fail("perBase/%s/loop" % name, fn, "every slot interval_start..interval_end must be visited")
             continue
         want = "*v.index_mut(i) = if val.is_nan() {%s} else {val + %s};" % (add, add)
         if want not in t:
@@ -236,4 +547,4 @@ def ob_per_base(ctx, res):
         if "for val in v.iter_mut() {*val = if val.is_nan() {missing} else {*val};}" not in t:
             res.fail("perBase/%s/missing" % name, fn, "NaN (no data) must be replaced by `missing` at the end")
             continue
-        res.ok(fn, "%s: NaN-seeded; covered base <- %s (summed on overlap); uncovered -> missing" % (name, "value" if name == "to_array" else "+1 per entry"))
+        res.ok(fn, "%s: NaN-seeded; covered base <- %s (summed on overlap)%s; uncovered -> missing" % (name, "value" if name == "to_array" else "+1 per entry", "" if raw else ", item clamped to the range"))
